@@ -21,6 +21,9 @@ type Profile struct {
 	// Script: instead of drawing operations, resolve these symbols in order (exhaust.go);
 	// symbols that do not apply in the current state are skipped.
 	Script []string
+	// MinThresh: pool thresholds below this are raised to it (objects with several values,
+	// so that successive loads give overlapping multi-value objects).
+	MinThresh int64
 }
 
 const DefaultThreshold = 500 * 1024 * 1024
@@ -110,6 +113,10 @@ func GenAlphabet(r *rand.Rand, cfg Cfg, plain bool) (texts, keys []string) {
 
 func genPred(r *rand.Rand, cfg Cfg, depth int) string {
 	ops := []string{"==", "!=", "<", "<=", ">", ">="}
+	if cfg.Key != "this" && (depth == 0 || r.Intn(3) > 0) && r.Intn(5) < 2 {
+		// a predicate on a NON-key field: hits some values of many (overlapping) objects
+		return fmt.Sprintf("v %s %d", ops[r.Intn(len(ops))], r.Intn(5))
+	}
 	if depth == 0 || r.Intn(3) > 0 {
 		lit, _ := keyLit(r, r.Intn(3) == 0)
 		if r.Intn(4) == 0 {
